@@ -278,8 +278,17 @@ def run_check(pid, tier, seed, jobs, select=None):
         bsamples.extend(b['samples'][:3])
         for v in b['violations']:
             hit = None
+            if v.get('classes'):
+                # the bounded check names the recorded defect classes an input falls in; it is covered only if every one
+                # of them is a listed finding (anything else about that input is reported by the check without a class)
+                hits = [f for f in kf if f.get('bounded') == b['name'] and f.get('class') in v['classes']]
+                if {f.get('class') for f in hits} >= set(v['classes']):
+                    for f in hits:
+                        if not any(f is h for h, _ in known_hits):
+                            known_hits.append((f, b['name']))
+                    continue
             for f in kf:
-                if f.get('bounded') == b['name'] and finding_matches(f, v):
+                if f.get('bounded') == b['name'] and f.get('class') is None and finding_matches(f, v):
                     hit = f
                     break
             if hit is not None:
